@@ -129,10 +129,16 @@ pub fn panic_msg(p: Box<dyn std::any::Any + Send>) -> String {
 
 /// canonical, numbering-preserving text of one execution result (graph through the public API, attribute
 /// maps sorted; pretty form; error text)
+/// whether the executions of the current session attach debug attributes (set per session case)
+static SESSION_DBG: std::sync::atomic::AtomicBool = std::sync::atomic::AtomicBool::new(false);
+
 fn run_once(file: &tree_sitter_graph::ast::File, src: &Src, lazy: bool, globals: &tree_sitter_graph::Variables) -> String {
     use tree_sitter_graph::{ExecutionConfig, NoCancellation};
     let functions = Functions::stdlib();
-    let config = ExecutionConfig::new(&functions, globals).lazy(lazy);
+    let mut config = ExecutionConfig::new(&functions, globals).lazy(lazy);
+    if SESSION_DBG.load(std::sync::atomic::Ordering::SeqCst) {
+        config = config.debug_attributes("dbg_loc".into(), "dbg_var".into(), "dbg_mat".into());
+    }
     let r = std::panic::catch_unwind(std::panic::AssertUnwindSafe(|| file.execute(&src.tree, &src.text, &config, &NoCancellation)));
     match r {
         Err(p) => format!("PANIC {}", panic_msg(p)),
@@ -153,6 +159,7 @@ fn sorted_json(v: &J) -> String {
 pub fn session(case: &J, srcs: &[Src]) -> J {
     let text = case["text"].as_str().unwrap_or("");
     let lazy = case["mode"].as_str() == Some("lazy");
+    SESSION_DBG.store(case["dbg"].as_bool().unwrap_or(false), std::sync::atomic::Ordering::SeqCst);
     let tree_ids: Vec<usize> = case["srcs"].as_array().map(|a| a.iter().filter_map(|x| x.as_u64()).map(|x| x as usize - 1).collect()).unwrap_or_default();
     // loading: the same text gives the same diagnostic every time
     let mut diags = Vec::new();
